@@ -684,10 +684,10 @@ class VPKFileSystem(FileSystem[VPKFile]):
 
     def walk_folder(self, folder: str = '') -> Iterator[File[Self]]:
         """Yield files in a folder."""
-        # All VPK files use forward slashes.
-        folder = folder.replace('\\', '/')
-        for file in self._name_to_file.values():
-            if _is_inside(file.filename, folder):
+        # All VPK files use forward slashes. The keys are casefolded.
+        folder = folder.replace('\\', '/').casefold()
+        for filename, file in self._name_to_file.items():
+            if _is_inside(filename, folder):
                 yield File(self, file.filename, file)
 
     def open_bin(self, name: Union[str, File[Self]]) -> BinaryIO:
